@@ -242,6 +242,11 @@ pub fn run(ctx: &Ctx) -> CheckResult {
         for cfg in generic_cfgs(k, &[1, 2, 3, 5], &[1, 2, 5]) {
             if k.has_scalar() {
                 jobs.push((cfg, s_ops(&S_POS), ds));
+                // with one value 10^6 times larger: residue of a spike that already left the window
+                // must not make a dimensionless output depend on the price unit
+                let mut spike = S_POS.to_vec();
+                spike.push(1e6);
+                jobs.push((cfg, s_ops(&spike), ds - 1));
             }
             if k.bar_native() {
                 let alpha = if matches!(k, Kind::Mfi | Kind::Obv) { b_ops(&b_vol()[..12]) } else { b_ops(&b_grid()) };
@@ -323,6 +328,6 @@ pub fn run(ctx: &Ctx) -> CheckResult {
     }
     res.extra.insert("scale_factors".into(), json!(factors.len()));
     res.rule = "case = (configuration, stream, transform): two real instances fed x and c*x (or x+d) step by step; price-valued outputs must scale by c (shift by d), dimensionless ones stay unchanged, within 1e-12 relative to c*M for powers of two and 1e-9 (times the condition number, gated at 1e6) otherwise; SD and Bollinger half-widths compared as variances; non-trivial = step beyond the window".into();
-    res.bounds = format!("all indicators except RSI, periods {{1,2,3,5}}: all 4^{ds} positive scalar streams / all bar streams of length {dbar} over the grid; scale factors 2^k for k in {} plus 3, 0.1, 7.3, 1e-3; shifts 0.5, 1, 100; Maximum(x) = -Minimum(-x) on all 5^{} mixed-sign streams", if th { "-40..=40".to_string() } else { format!("{:?}", ks) }, if th { 9 } else { 8 });
+    res.bounds = format!("all indicators except RSI, periods {{1,2,3,5}}: all 4^{ds} positive scalar streams (and all 5^(depth-1) streams with a 1e6 spike symbol) / all bar streams of length {dbar} over the grid; scale factors 2^k for k in {} plus 3, 0.1, 7.3, 1e-3; shifts 0.5, 1, 100; Maximum(x) = -Minimum(-x) on all 5^{} mixed-sign streams", if th { "-40..=40".to_string() } else { format!("{:?}", ks) }, if th { 9 } else { 8 });
     res
 }
